@@ -6,6 +6,7 @@ import (
 	"bytes"
 	"encoding/json"
 	"fmt"
+	"github.com/DemoHn/Zn/pkg/syntax"
 	"io"
 	"net/http/httptest"
 	"os"
@@ -501,7 +502,14 @@ func TestConcurrentHandlers(t *testing.T) {
 				tok := fmt.Sprintf("tok-%d-%d", round, g)
 				var body string
 				if g%2 == 0 {
-					payload, _ := json.Marshal(map[string]string{"SourceCode": "输入甲\n令乙 = 数值 + 甲\n输出【“" + tok + "”，乙】#1", "VarInput": "甲 = " + fmt.Sprint(g)})
+					// every request names a variable with a character no earlier request used
+					// (state that a front end keeps per character is touched for the first time
+					// while other requests are being compiled)
+					id := "乙" + string(rune(0x3400+(round*16+g)%6000))
+					if !syntax.IdInRange(rune(0x3400 + (round*16+g)%6000)) {
+						id = "乙"
+					}
+					payload, _ := json.Marshal(map[string]string{"SourceCode": "输入甲\n令" + id + " = 数值 + 甲\n输出【“" + tok + "”，" + id + "】#1", "VarInput": "甲 = " + fmt.Sprint(g)})
 					req := httptest.NewRequest("POST", "http://zn.test/", bytes.NewReader(payload))
 					rec := httptest.NewRecorder()
 					pg.ServeHTTP(rec, req)
